@@ -124,6 +124,23 @@ def run(ctx):
             for w in (False, True):
                 hs.append((dict(weighted=w), list(h)))
     ctx.exhaustive_parts.append(f"all histories of length <= {maxlen} over the alphabet, weighted and unweighted: {len(hs)}")
+    # shrinking removals that make two stored hyperedges coincide: B and A = B + {n} with different weights and metadata, inserted in either
+    # order, then remove_node(n, keep_edges=True) - on nodes {0..3}, every B and n, weighted and unweighted; plus the chain of two removals
+    merges = []
+    for r in range(1, 4):
+        for B in itertools.combinations(range(4), r):
+            for n in range(4):
+                if n in B:
+                    continue
+                A = tuple(sorted(B + (n,)))
+                for first, second in (((B, 2, {"t": "small"}), (A, 3.5, {"t": "big"})), ((A, 3.5, {"t": "big"}), (B, 2, {"t": "small"}))):
+                    for w in (False, True):
+                        ops = [("add_edge", e, wt if w else None, md) for e, wt, md in (first, second)] + [("remove_node", n, True)]
+                        merges.append((dict(weighted=w), ops))
+                        merges.append((dict(weighted=w), ops + [("remove_node", B[0], True)]))
+    hs += merges
+    ctx.exhaustive_parts.append(f"merging removals: every hyperedge B on nodes 0..3 with B + {{n}} stored as well, then remove_node(n, keep_edges=True) "
+                                f"(and a second shrinking removal): {len(merges)} histories")
     n_rand = 300 if ctx.quick else 6000
     rl = 12 if ctx.quick else 30
     rnd, rnds = [], []
